@@ -1200,3 +1200,176 @@ Example ex_round_trip : forall i j k, (i < 3)%nat -> (j < 2)%nat -> (k < 3)%nat 
   get3 (m_tf (to_matrices (from_matrices (to_matrices ex_mdp [2%nat; O; 1%nat] [1%nat; O])) [2%nat; O; 1%nat] [1%nat; O])) i j k
   == get3 (m_tf (to_matrices ex_mdp [2%nat; O; 1%nat] [1%nat; O])) i j k.
 Proof. intros. apply (round_trip_tf ex_mdp _ _ ex_nodup_sl ex_nodup_al ex_keys ex_nonneg); assumption. Qed.
+
+(* ------------------------------------------------------------------ *)
+(* absorbing_state_vec                                                 *)
+(* ------------------------------------------------------------------ *)
+Lemma forallb_nth : forall A (P : A -> bool) l d,
+  forallb P l = true <-> forall j, (j < length l)%nat -> P (nth j l d) = true.
+Proof.
+  intros A P l d. rewrite forallb_forall. split.
+  - intros H j Hj. apply H. apply nth_In. exact Hj.
+  - intros H x Hx. destruct (In_nth l x d Hx) as [j [Hj <-]]. apply H. exact Hj.
+Qed.
+
+Lemma forallb_seq : forall P n, forallb P (seq 0 n) = true <-> forall j, (j < n)%nat -> P j = true.
+Proof.
+  intros P n. rewrite forallb_forall. split.
+  - intros H j Hj. apply H. apply in_seq. lia.
+  - intros H x Hx. apply in_seq in Hx. apply H. lia.
+Qed.
+
+Lemma nth_map_lt : forall A B (f : A -> B) l i d d', (i < length l)%nat -> nth i (map f l) d' = f (nth i l d).
+Proof.
+  intros A B f l i d d' Hi. rewrite (nth_indep _ d' (f d)); [apply map_nth | rewrite map_length; exact Hi].
+Qed.
+
+Lemma nth_enum : forall A (l : list A) i d, (i < length l)%nat -> nth i (enum l) (O, d) = (i, nth i l d).
+Proof.
+  intros A l i d Hi. unfold enum. rewrite combine_nth; [| apply seq_length].
+  rewrite seq_nth; [reflexivity | exact Hi].
+Qed.
+
+Lemma length_enum : forall A (l : list A), length (enum l) = length l.
+Proof. intros. unfold enum. rewrite combine_length, seq_length. apply Nat.min_id. Qed.
+
+Definition absorbing_cond (tf : list (list (list Q))) (am : list (list Q)) (rf : list (list (list Q)))
+           (b c i : nat) : Prop :=
+  (forall j, (j < b)%nat -> get3 tf i j i == 1 \/ get2 am i j == 0) /\
+  (exists j, (j < b)%nat /\ ~ get2 am i j == 0) /\
+  (forall j k, (j < b)%nat -> (k < c)%nat -> get3 rf i j k == 0).
+
+(* array level: explicit flag, or: some action available, every available action self-loops
+   with probability 1, and the whole reward slice of the state is zero *)
+Lemma absorbing_vec_arrays : forall m sl tf am rf b c i,
+  dims2 am (length sl) b -> dims3 rf (length sl) b c -> (i < length sl)%nat ->
+  (nth i (absorbing_vec m sl tf am rf) false = true <->
+   fabsorbing m (nth i sl O) = true \/ absorbing_cond tf am rf b c i).
+Proof.
+  intros m sl tf am rf b c i [Da1 Da2] [Dr1 Dr2] Hi. unfold absorbing_vec.
+  rewrite (nth_map_lt _ _ _ (enum sl) i (O, O) false); [| rewrite length_enum; exact Hi].
+  rewrite (nth_enum _ sl i O Hi). simpl.
+  unfold dead_end_vec. rewrite (nth_map_lt _ _ _ am i [] false); [| rewrite Da1; exact Hi].
+  specialize (Da2 i Hi). destruct (Dr2 i Hi) as [Dr3 Dr4]. rewrite Da2.
+  rewrite orb_true_iff, !andb_true_iff, negb_true_iff.
+  rewrite forallb_seq. rewrite (forallb_nth _ _ (nth i rf []) []).
+  rewrite <- not_true_iff_false. rewrite (forallb_nth _ _ (nth i am []) 0).
+  rewrite Dr3, Da2. unfold absorbing_cond.
+  split; [intros [H | H]; [right | left; exact H] | intros [H | H]; [right; exact H | left]].
+  - destruct H as [[H1 H2] H3]. split; [| split].
+    + intros j Hj. specialize (H1 j Hj). apply orb_true_iff in H1.
+      destruct H1 as [H1 | H1]; apply Qeq_bool_iff in H1; [left | right]; exact H1.
+    + (* not all zero: some j has a non-zero entry *)
+      assert (Hex : exists j, (j < b)%nat /\ Qeq_bool (nth j (nth i am []) 0) 0 = false).
+      { clear - H2. revert H2. generalize (nth i am []) as row. intro row. revert b.
+        induction row as [| x row IH]; intros b H2.
+        - exfalso. apply H2. intros j Hj. destruct j; reflexivity.
+        - destruct (Qeq_bool x 0) eqn:E.
+          + destruct b as [| b]; [exfalso; apply H2; intros j Hj; lia |].
+            destruct (IH b) as [j [Hj Hz]].
+            * intro H. apply H2. intros [| j] Hj; [exact E | apply H; lia].
+            * exists (S j). split; [lia | exact Hz].
+          + destruct b as [| b]; [exfalso; apply H2; intros j Hj; lia |].
+            exists O. split; [lia | exact E]. }
+      destruct Hex as [j [Hj Hz]]. exists j. split; [exact Hj |].
+      intro H. apply Qeq_bool_iff in H. unfold get2 in H. rewrite Hz in H. discriminate.
+    + intros j k Hj Hk. specialize (H3 j Hj). rewrite (forallb_nth _ _ _ 0) in H3.
+      rewrite (Dr4 j Hj) in H3. apply Qeq_bool_iff. apply (H3 k Hk).
+  - destruct H as [H1 [[j0 [Hj0 H2]] H3]]. split; [split |].
+    + intros j Hj. apply orb_true_iff. destruct (H1 j Hj) as [H | H]; apply Qeq_bool_iff in H; [left | right]; exact H.
+    + intro H. apply H2. apply Qeq_bool_iff. apply (H j0 Hj0).
+    + intros j Hj. rewrite (forallb_nth _ _ _ 0). rewrite (Dr4 j Hj). intros k Hk.
+      apply Qeq_bool_iff. apply (H3 j k Hj Hk).
+Qed.
+
+(* in terms of the functions: explicit flag, or the state has an available (listed) action,
+   each of them returns to the state with probability 1, and no reward is non-zero on a
+   non-zero-probability transition out of it *)
+Theorem absorbing_vec_exact : forall m sl al i,
+  NoDup sl -> NoDup al -> (forall s a, NoDup (map fst (fnext m s a))) -> (i < length sl)%nat ->
+  let s := nth i sl O in
+  (nth i (m_abs (to_matrices m sl al)) false = true <->
+   fabsorbing m s = true \/
+   ((forall j, (j < length al)%nat -> mem (nth j al O) (factions m s) = true ->
+               prob (fnext m s (nth j al O)) s == 1) /\
+    (exists j, (j < length al)%nat /\ mem (nth j al O) (factions m s) = true) /\
+    (forall j k, (j < length al)%nat -> (k < length sl)%nat ->
+                 mem (nth j al O) (factions m s) = true ->
+                 Qnz (prob (fnext m s (nth j al O)) (nth k sl O)) = true ->
+                 freward m s (nth j al O) (nth k sl O) == 0))).
+Proof.
+  intros m sl al i Hsl Hal Hkeys Hi. simpl.
+  rewrite (absorbing_vec_arrays m sl _ _ _ (length al) (length sl) i
+             (action_matrix_dims m sl al) (reward_matrix_dims m sl al) Hi).
+  unfold absorbing_cond.
+  assert (Ham : forall j, (j < length al)%nat ->
+            get2 (action_matrix m sl al) i j == (if mem (nth j al O) (factions m (nth i sl O)) then 1 else 0))
+    by (intros j Hj; apply action_matrix_exact; assumption).
+  assert (Htf : forall j k, (j < length al)%nat -> (k < length sl)%nat ->
+            get3 (transition_matrix m sl al) i j k ==
+            (if mem (nth j al O) (factions m (nth i sl O)) then prob (fnext m (nth i sl O) (nth j al O)) (nth k sl O) else 0))
+    by (intros j k Hj Hk; apply transition_matrix_exact; try assumption; apply Hkeys).
+  assert (Hrf : forall j k, (j < length al)%nat -> (k < length sl)%nat ->
+            get3 (reward_matrix m sl al) i j k ==
+            (if mem (nth j al O) (factions m (nth i sl O)) && Qnz (prob (fnext m (nth i sl O) (nth j al O)) (nth k sl O))
+             then freward m (nth i sl O) (nth j al O) (nth k sl O) else 0))
+    by (intros j k Hj Hk; apply reward_matrix_exact; try assumption; apply Hkeys).
+  split; (intros [H | H]; [left; exact H | right]); destruct H as [H1 [[j0 [Hj0 H2]] H3]]; (split; [| split]).
+  - intros j Hj Hm. destruct (H1 j Hj) as [H | H].
+    + rewrite (Htf j i Hj Hi), Hm in H. exact H.
+    + rewrite (Ham j Hj), Hm in H. discriminate.
+  - exists j0. split; [exact Hj0 |]. destruct (mem (nth j0 al O) (factions m (nth i sl O))) eqn:E; [reflexivity |].
+    exfalso. apply H2. rewrite (Ham j0 Hj0), E. reflexivity.
+  - intros j k Hj Hk Hm Hp. specialize (H3 j k Hj Hk). rewrite (Hrf j k Hj Hk), Hm, Hp in H3. exact H3.
+  - intros j Hj. destruct (mem (nth j al O) (factions m (nth i sl O))) eqn:E.
+    + left. rewrite (Htf j i Hj Hi), E. apply H1; assumption.
+    + right. rewrite (Ham j Hj), E. reflexivity.
+  - exists j0. split; [exact Hj0 |]. rewrite (Ham j0 Hj0), H2. discriminate.
+  - intros j k Hj Hk. rewrite (Hrf j k Hj Hk).
+    destruct (mem (nth j al O) (factions m (nth i sl O))) eqn:E; simpl; [| reflexivity].
+    destruct (Qnz _) eqn:Ep; [| reflexivity]. apply H3; assumption.
+Qed.
+
+(* the absorbing vector survives the round trip as well (the rebuilt MDP declares every
+   originally detected absorbing state explicitly; detection adds nothing new) *)
+Theorem round_trip_abs : forall m sl al,
+  NoDup sl -> NoDup al ->
+  (forall s a, NoDup (map fst (fnext m s a))) ->
+  (forall s a e, In e (fnext m s a) -> 0 <= snd e) ->
+  forall i, (i < length sl)%nat ->
+  nth i (m_abs (to_matrices (from_matrices (to_matrices m sl al)) sl al)) false =
+  nth i (m_abs (to_matrices m sl al)) false.
+Proof.
+  intros m sl al Hsl Hal Hkeys Hnn i Hi.
+  set (M := to_matrices m sl al). set (m' := from_matrices M).
+  assert (Hiff : nth i (m_abs (to_matrices m' sl al)) false = true <-> nth i (m_abs M) false = true).
+  { simpl.
+    rewrite (absorbing_vec_arrays m' sl _ _ _ (length al) (length sl) i
+               (action_matrix_dims m' sl al) (reward_matrix_dims m' sl al) Hi).
+    assert (Hflag : fabsorbing m' (nth i sl O) = nth i (m_abs M) false).
+    { unfold m', from_matrices. simpl. rewrite (index_nth sl i O Hsl Hi). reflexivity. }
+    rewrite Hflag.
+    assert (Hcond : absorbing_cond (transition_matrix m' sl al) (action_matrix m' sl al) (reward_matrix m' sl al)
+                                   (length al) (length sl) i <->
+                    absorbing_cond (transition_matrix m sl al) (action_matrix m sl al) (reward_matrix m sl al)
+                                   (length al) (length sl) i).
+    { unfold absorbing_cond.
+      pose proof (fun j k Hj Hk => round_trip_tf m sl al Hsl Hal Hkeys Hnn i j k Hi Hj Hk) as Etf.
+      pose proof (fun j k Hj Hk => round_trip_rf m sl al Hsl Hal Hkeys Hnn i j k Hi Hj Hk) as Erf.
+      pose proof (fun j Hj => round_trip_am m sl al Hsl Hal i j Hi Hj) as Eam.
+      fold M in Etf, Erf, Eam. fold m' in Etf, Erf, Eam. simpl in Etf, Erf, Eam.
+      split; intros [H1 [[j0 [Hj0 H2]] H3]]; (split; [| split]).
+      - intros j Hj. destruct (H1 j Hj) as [H | H]; [left; rewrite <- (Etf j i Hj Hi); exact H | right; rewrite <- (Eam j Hj); exact H].
+      - exists j0. split; [exact Hj0 |]. rewrite <- (Eam j0 Hj0). exact H2.
+      - intros j k Hj Hk. rewrite <- (Erf j k Hj Hk). apply H3; assumption.
+      - intros j Hj. destruct (H1 j Hj) as [H | H]; [left; rewrite (Etf j i Hj Hi); exact H | right; rewrite (Eam j Hj); exact H].
+      - exists j0. split; [exact Hj0 |]. rewrite (Eam j0 Hj0). exact H2.
+      - intros j k Hj Hk. rewrite (Erf j k Hj Hk). apply H3; assumption. }
+    rewrite Hcond. unfold M. simpl.
+    rewrite (absorbing_vec_arrays m sl _ _ _ (length al) (length sl) i
+               (action_matrix_dims m sl al) (reward_matrix_dims m sl al) Hi).
+    tauto. }
+  destruct (nth i (m_abs (to_matrices m' sl al)) false); destruct (nth i (m_abs M) false); try reflexivity.
+  - symmetry. apply Hiff. reflexivity.
+  - apply Hiff. reflexivity.
+Qed.
